@@ -49,4 +49,47 @@ def Point_MultByCofactor (_v p : P3) : P3 := Point.multByCofactor p
 def Point_Equal (v u : P3) : Nat := Point.equal v u
 def Point_bytesMontgomery (v : P3) (_buf : Bytes) : Bytes := Point.bytesMontgomery v
 
+-- addition chains (constant-trip loops, unrolled by the translator)
+def field_Element_Invert (_v z : Fe) : Fe := Fe.invert z
+def field_Element_Pow22523 (_v x : Fe) : Fe := Fe.pow22523 x
+
+-- extra.go / edwards25519.go: the decoders.  A fallible setter is specified by the pair
+-- `(value returned, or none for (nil, error)`, `final value of the receiver)`.
+def isOnCurve (X Y Z T : Fe) : Bool := Point.isOnCurve X Y Z T
+
+def Point_SetExtendedCoordinates (v : P3) (X Y Z T : Fe) : Option P3 × P3 :=
+  if Point.isOnCurve X Y Z T then (some ⟨X, Y, Z, T⟩, ⟨X, Y, Z, T⟩) else (none, v)
+
+def Point_SetBytes (v : P3) (x : Bytes) : Option P3 × P3 :=
+  match Fe.setBytes x with
+  | none => (none, v)
+  | some y =>
+    let y2 := Fe.square y
+    let u := Fe.sub y2 Point.feOne
+    let vv := Fe.mul y2 Point.d
+    let vv := Fe.add vv Point.feOne
+    let r := Fe.sqrtRatio u vv
+    if r.2 == 0 then (none, v) else
+    let xxNeg := Fe.neg r.1
+    let xx := Fe.select xxNeg r.1 (x[31]! >>> 7)
+    (some ⟨xx, y, Fe.one, Fe.mul xx y⟩, ⟨xx, y, Fe.one, Fe.mul xx y⟩)
+
+/-- the pair form agrees with the model's `Option` form; on failure the receiver is unchanged -/
+theorem Point_SetExtendedCoordinates_eq (v : P3) (X Y Z T : Fe) :
+    Point_SetExtendedCoordinates v X Y Z T =
+      (Point.setExtendedCoordinates X Y Z T, (Point.setExtendedCoordinates X Y Z T).getD v) := by
+  unfold Point_SetExtendedCoordinates Point.setExtendedCoordinates
+  cases h : Point.isOnCurve X Y Z T <;> simp
+
+theorem Point_SetBytes_eq (v : P3) (x : Bytes) :
+    Point_SetBytes v x = (Point.setBytes x, (Point.setBytes x).getD v) := by
+  unfold Point_SetBytes Point.setBytes
+  cases h : Fe.setBytes x with
+  | none => simp
+  | some y =>
+    simp only []
+    by_cases hw : ((Fe.sqrtRatio (Fe.sub (Fe.square y) Point.feOne) (Fe.add (Fe.mul (Fe.square y) Point.d) Point.feOne)).2 == 0) = true
+    · simp [hw]
+    · simp [hw]
+
 end EdVerif.FormulaSpec
